@@ -159,7 +159,8 @@ def main():
             for v in r["violations"]:
                 v["stream"] = st; violations.append(v)
     # known findings
-    kf = [f for f in known_findings() if f.get("property") == prop and f.get("status") == "known"]
+    # a finding belongs to one property; "also" names the properties whose streams can meet the same failing input
+    kf = [f for f in known_findings() if f.get("status") == "known" and (f.get("property") == prop or prop in f.get("also", []))]
     new = []
     hit = {}
     for v in violations:
@@ -167,6 +168,7 @@ def main():
         if k: hit[k["id"]] = hit.get(k["id"], 0) + 1
         else: new.append(v)
     for f in kf:
+        if f.get("property") != prop and not hit.get(f["id"]): continue
         print("KNOWN-FINDING: property=%s %s%s" % (prop, f["what"], "" if hit.get(f["id"]) else " (not reproduced in this run)"))
     ev = {"property_id": prop, "tier": tier, "seed": seed, "level": "proof", "wall_s": round(time.time() - t0, 1),
           "violations": len(new) + (1 if broken and not new else 0),
